@@ -21,9 +21,9 @@ CORR_MODULES = ["Lang.IdlCorr"]
 PREFIX = "C41"
 CASE_TYPE = "C41_case"
 HARNESS = "c41"
-# (class 2, C41-annotation-first-declarator-only, was fixed in /repo by 7270bfe and is retired)
-KNOWN = {1: "C41-bounds-dropped", 3: "C41-array-dimensions-dropped", 4: "C41-split-attributes",
-         5: "C41-id-ignored-unless-mutable"}
+# (retired, fixed in /repo: class 2 C41-annotation-first-declarator-only by 7270bfe, class 4
+#  C41-split-attributes by 99bf327, class 5 C41-id-ignored-unless-mutable by 7ee9e78)
+KNOWN = {1: "C41-bounds-dropped", 3: "C41-array-dimensions-dropped"}
 RULE = ("a case is an IDL specification (modules, structs with annotated members, enums, unions, typedefs, "
         "constants, forward declarations, #define/#ifdef/#ifndef gating) printed from a random syntax tree of the "
         "supported subset plus boundary trees (reserved words as identifiers, constructs the generator answers "
@@ -32,7 +32,7 @@ RULE = ("a case is an IDL specification (modules, structs with annotated members
         "or enum with a member")
 TRUSTED = ["theories/Lang/IdlModel.v is a hand transcription of dds_gen/src/generator/rust.rs (RustGenerator), the "
            "identifier rule of idl_v4_grammar.pest, the #define/#ifdef/#ifndef handling of preprocessor/mod.rs and "
-           "the `.find(dust_dds)` attribute lookup of dds_derive/src/derive/attributes.rs",
+           "the attribute loops of dds_derive/src/derive/attributes.rs (every #[dust_dds] attribute, later argument wins)",
            "the IDL pretty-printer, the IDL reader used for the corpus files and the Rust-text reader of props/C41.py "
            "(pest's parsing of the printed text and rustc are outside the model)"]
 ASSUMPTIONS = ["PARTIAL: the pest parser and rustc/the derive macro are outside the model; 'the generated code compiles "
@@ -43,7 +43,7 @@ ASSUMPTIONS = ["PARTIAL: the pest parser and rustc/the derive macro are outside 
                "an unqualified IDL name spelled like a Rust built-in type (u8, i32, String ..) denotes that type",
                "#define is modelled for value-less flags whose name occurs nowhere else in the text",
                "structure is claimed outside the recorded classes only (known findings C41-bounds-dropped, "
-               "C41-array-dimensions-dropped, C41-split-attributes)"]
+               "C41-array-dimensions-dropped)"]
 
 TESTS_DIR = os.path.join(REPO, "dds_gen", "tests")
 
@@ -1139,7 +1139,7 @@ FLAVOURS = [
     (0.10, {"bound": 0.5}),                                   # class 1
     (0.07, {"multi_annot": 1.0}),                             # annotated member with several declarators (former class 2)
     (0.06, {"multi_dim": 0.6}),                               # class 3
-    (0.09, {"split": 1.0}),                                   # class 4
+    (0.09, {"split": 1.0}),                                   # several #[dust_dds] attributes on one item (former class 4)
     (0.05, {"bound": 0.3, "split": 0.7, "multi_annot": 0.7, "multi_dim": 0.4}),   # mixtures
     (0.04, {"abs_top": 0.5, "outer_ref": 0.5}),               # name forms rustc cannot resolve (structure still compared)
     (0.04, {"unsup_t": 0.08}), (0.03, {"unsup_d": 0.15}), (0.02, {"typedef_array": 0.5}),
@@ -1210,8 +1210,10 @@ def corpus():
         'struct S { @key long a, b; };',                                       # regression: fix 7270bfe
         '@mutable struct S { @key @id(4) long a, b[2]; @optional string c, d; @id(9) long e, f, g; };',   # regression: fix 7270bfe
         'struct S { long x[2][3]; };',
-        'module M { @mutable struct A { @id(7) @key long y; }; };',
+        'module M { @mutable struct A { @id(7) @key long y; }; };',            # regression: fix 99bf327
+        'module M { struct P { long a; }; @appendable struct C : P { @optional @id(3) long b; }; @mutable struct D { @key @id(5) long x; @id(7) @key long y; long z; }; };',   # regression: fix 99bf327
         'struct S { @key @id(1) int32 id; };',
+        'struct Person { @id(1) string name; @id(2) int32 age; long rest; }; @appendable struct Q { long a; @id(9) long b; };',   # regression: fix 7ee9e78
         'module M { @bit_bound(8) enum E { A, B }; };',
         'struct P { long a; }; struct C : P { long b; };',
         'module M { struct P { long a; }; struct C : P { long b; }; };',
@@ -1650,16 +1652,14 @@ def extra(ctx, binary):
 MANIFEST = {
     "text": ("Machine-checked proof (Coq) over a model of the IDL compiler's Rust generator (dds_gen/src/generator/rust.rs, "
              "rule by rule, plus the reserved-word rule of the grammar and the #define/#ifdef gating of the preprocessor): "
-             "for EVERY specification of the supported subset that is outside three recorded classes, the structure read off "
+             "for EVERY specification of the supported subset that is outside two recorded classes, the structure read off "
              "the generated Rust items the way #[derive(DdsType)] reads them (names, module nesting, member order and "
              "kinds, array sizes, keys, member ids, optional flags, extensibility, base type, qualified type name, "
              "enumerators and values, union discriminator, case labels and default) equals the structure the IDL declares; "
              "names, nesting, enumerators and labels are preserved for all supported specifications without exception, and "
-             "for all of them the structure is preserved up to exactly what the classes present can lose. The three classes "
-             "are refuted by witnesses and recorded as known findings: string/sequence bounds are dropped (D34), "
-             "array dimensions after the first are dropped, and "
-             "of several #[dust_dds] attributes written on one item the derive reads only the first (keys, ids, qualified "
-             "names, base types get lost). Two ties to the code on every run: (1) the real compiler is run on random "
+             "for all of them the structure is preserved up to exactly what the classes present can lose. The two classes "
+             "are refuted by witnesses and recorded as known findings: string/sequence bounds are dropped (D34) and "
+             "array dimensions after the first are dropped (further classes were fixed in /repo: 7270bfe, 99bf327, 7ee9e78). Two ties to the code on every run: (1) the real compiler is run on random "
              "specifications and on the repository's own test IDL files, its output is parsed and compared with the model "
              "inside Coq, and the oracle is applied to the real output; (2) the generated code of a batch of cases is "
              "compiled against dust_dds in a scratch crate (rustc must accept it outside the recorded constructs) and the "
@@ -1670,7 +1670,7 @@ MANIFEST = {
              "props/C41.py; harness. Axioms: none. Not covered: interfaces, named annotation parameters, #include and "
              "#define with a value, constructs the generator answers with todo!(); the description-level model of the "
              "derive macro is tied by correspondence only (no theorem). Known findings: C41-bounds-dropped, "
-             "C41-array-dimensions-dropped, C41-split-attributes, "
-             "C41-id-ignored-unless-mutable, C41-generated-code-does-not-compile."),
+             "C41-array-dimensions-dropped, "
+             "C41-generated-code-does-not-compile."),
     "technique": "Coq proof (structural induction over the syntax tree) + differential correspondence with the real compiler, oracle evaluated in Coq; cargo check/build of generated code, printed type descriptions compared in Coq",
 }
